@@ -991,6 +991,17 @@ func entryPointReuseMonitor(o *out, r *rng, n int) {
 	for i := 0; i < n; i++ {
 		prev := r.validMessage(r.pick([]int{1, 4, 10}), r.pick([]int{20, 120, 400}))
 		next := r.validMessage(r.pick([]int{0, 1, 3, 8}), r.pick([]int{4, 40, 200}))
+		switch {
+		case i%5 == 4 && len(next) > 24:
+			next = next[:len(next)-r.rangeIn(1, 8)] // cut short: refused, whatever the Message held before
+		case i%7 == 6:
+			// same transaction ID, type, length, size and number of attributes as the previous message, another
+			// layout: nothing of the previous attribute table may survive
+			tid := r.bytes(12)
+			la, lb := r.pick([]int{0, 4, 8}), r.pick([]int{12, 16})
+			prev = append(header(0x0101, 8+la+lb, tid), append(r.tlv(0x8030, r.bytes(la), la), r.tlv(0x8031, r.bytes(lb), lb)...)...)
+			next = append(header(0x0101, 8+la+lb, tid), append(r.tlv(0x8032, r.bytes(lb), lb), r.tlv(0x8033, r.bytes(la), la)...)...)
+		}
 		used := &stun.Message{Raw: fill(r, r.pick([]int{0, 64, 2000}), 1)[:0]}
 		if i%3 == 0 {
 			_ = stun.Decode(prev, used)
@@ -1000,6 +1011,9 @@ func entryPointReuseMonitor(o *out, r *rng, n int) {
 			_, _ = used.Write(prev)
 		}
 		entry := i % 6
+		if i%7 == 6 && i%2 == 0 {
+			entry = 5
+		}
 		if entry == 2 && cap(used.Raw) < len(next) {
 			entry = 0 // ReadFrom reads into the existing capacity only
 		}
